@@ -174,17 +174,16 @@ def _r2_selection(run):
     ev2 = sym.make_evaluator(project, "toasty.image", [])
     r2 = ev2.run(g.node)
     fmt = ("sym", g.params()[0])
-    plus = [(pc, t) for pc, t, n in r2.returns if num_value(t) == 1]
-    minus = [(pc, t) for pc, t, n in r2.returns if num_value(t) == -1]
-    ok = len(plus) == 1 and len(minus) == 1 and len(r2.returns) == 2
-    if ok:
-        pc = [c for c in plus[0][0] if c[0] != "loop"]
-        ok = len(pc) == 1 and pc[0][1] is True and pc[0][0] == sym.cmp("Eq", fmt, ("const", "fits"))
-    if ok:
+    val = boolalg.fold_returns(r2.returns)
+    table = {}
+    for fv in ("fits", "png", "jpg", "npy", "tiff", None):
+        table[fv] = teval(val, {fmt: fv}) if val is not None else UNKNOWN
+    if any(v is UNKNOWN for v in table.values()):
+        run.undecided("C02.R2", g, None, "cannot evaluate get_format_vertical_parity_sign (%s)" % (show(val)[:100] if val is not None else "no return"), kind="format-parity-shape")
+    elif table["fits"] == 1 and all(v == -1 for k, v in table.items() if k != "fits"):
         run.holds("C02.R2", g, None, "vertical parity sign is +1 exactly for 'fits'")
     else:
-        run.violated("C02.R2", g, None, "get_format_vertical_parity_sign returns %s; expected +1 iff format == 'fits', else -1" %
-                     [([("" if p else "not ") + show(c) for c, p in pc], show(t)) for pc, t, n in r2.returns], kind="format-parity")
+        run.violated("C02.R2", g, None, "get_format_vertical_parity_sign gives %s; expected +1 iff format == 'fits', else -1" % table, kind="format-parity")
 
 
 def _callback_eval(project):
